@@ -535,6 +535,7 @@ func tasks19(tier string) []task {
 			}
 		}
 	}})
+	ts = append(ts, task{"mixed-units-in-one-record", runMixedUnits})
 	// write direction over every day boundary near the epoch: t = d*86400 s + {−1ns,0,+1ns}
 	ts = append(ts, task{"date-write-day-boundaries", func(c *fw.Ctx) {
 		n := int64(20000)
@@ -563,6 +564,7 @@ func init() {
 		},
 		Assumptions: []string{
 			"plain long follows the library's documented convention: nanoseconds since the epoch",
+			"also enumerated: every triple of the seven units as three time.Time fields (and three nullable *time.Time fields) of ONE record, read and re-encoded — each field under its own logical type",
 			"'encoding stores the integer that decodes back to it at that type's resolution' is read as floor to the resolution (the only integer whose decoded instant is <= t and within one unit)",
 			"long domains are covered on boundary sets (2^k±δ and range extremes), not completely",
 		},
